@@ -3,7 +3,9 @@ import struct
 
 PROP = "C10"
 ENGINE = "pretty"
-LEAN_MODULES = ["RtoscModel.Props.C10"]
+# the table obligations have a module of their own: a changed table of pretty-format.c breaks that module (one
+# obligation that names the table), not the 50-odd theorems of Props/C10.lean
+LEAN_MODULES = ["RtoscModel.Props.C10", "RtoscModel.Props.C10Tables"]
 _NS = "Rtosc.Pretty."
 THEOREMS = [_NS + t for t in (
     # tier 1: token codecs, every value of the type, any print options
@@ -38,24 +40,39 @@ THEOREMS = [_NS + t for t in (
     "convertToRange_crun_of_nextW", "convertToRange_irun_of_nextW",
     # the original list of a list of pieces is an argument list of the property's domain (ItemInDomain)
     "PrinterPieces.inDomain", "PrinterSegments.domain",
-    # why nested arrays are outside the proved class: the recursion bound of the MODEL's ellipsisTail
-    "nested_arrays_model_fuel_counterexample",
+    # the checker model has no nesting bound that the code lacks: the recursion bound handed to the skipper covers the
+    # previous argument too (checkFuel), a larger bound never changes an answer; the former counterexample now reads
+    "skipNextPrintedArg_fuel_mono", "nested_arrays_deep_reads", "nested_arrays_deep_roundtrips",
     # when rtosc_convert_to_range finds a run that is followed by further values (the run hypotheses from the values)
     "convertToRange_crun_of_next", "convertToRange_irun_of_next",
     "PrinterSegments.crun_of_next", "PrinterSegments.irun_of_next",
-    # the model is written over the constants/tables extracted from the source on every run
-    "tables_agree", "escape_tables_inverse")]
+    # the model is written over the constants/tables extracted from the source on every run (Props/C10Tables.lean:
+    # one theorem per table, and their conjunction)
+    # the try-order of scanf_fmtstr is compared up to the one commutation that is proved neutral: "%*lfd%n" / "%*ff%n"
+    # never both consume the same non-empty numeric word (Proofs/PrettyTryOrder.lean)
+    "scanfFmtstr_order", "scanfFmtstr_swap_lfd_ff", "scanfFmtstr_order_swapped", "tryLfd_tryFf_exclusive",
+    "translator_ok", "rangeMin_agrees", "escapeTables_agree", "unescapeTables_agree", "tryOrder_agrees",
+    "reservedWords_agree", "defaultOpt_agrees", "tables_agree", "escape_tables_inverse")]
 HARNESS = {"src": ["pretty.cpp"]}
-RULE = ("each case: print options (lossless, precision 0..9, line length 10..120, compression on/off) and an argument "
+RULE = ("each case: print options (lossless, precision 0..9, line length 10..120, compression on/off; in 4 % of the lossless "
+        "cases opt == NULL, i.e. default_print_options; in 15 % of the cases cols_used != 0: 1..5, 8, line length -2..+1, "
+        "1..line length+10 — in list mode the buffer then points cols_used bytes into a line the caller has written, whose "
+        "last byte is the separator the printer may turn into the line break) and an argument "
         "list of 0..12 top-level values per type or mixed (i h c f d s S b m r t T F N I; finite floats only in lossless "
         "mode; strings of 0..600 characters of printable ASCII and C escapes incl. fragments of the format's own syntax; "
-        "symbols of 1..91 characters incl. reserved words; blobs of 0..300 bytes (header widths 8..11); time tags "
+        "symbols of 1..91 characters over the whole identifier alphabet [A-Za-z0-9_], incl. the reserved words, the reserved "
+        "words in every other capitalisation (nIL, True, INF, mIDI ...), and both with an identifier tail or prefix; blobs of 0..300 bytes (header widths 8..11); time tags "
         "'immediately', without fraction, with float-representable fraction in lossless mode, and without lossless mode "
         "with a fraction that max(precision,1) decimal digits denote exactly, that the scanner reads from such digits, "
         "or any float-representable one incl. values just below 1 and below 2^-8 — the last kind compared to the "
         "printed precision: less than one unit of the last printed digit apart), constant and arithmetic runs of length "
         "1..12 of every type (incl. wrap-around and signed-zero runs), arrays of 0..8 elements, runs of 1..12 equal "
-        "arrays, nested arrays; in 14 % of the cases (90 % of them with compression on) 2..4 ADJACENT runs of one type, "
+        "arrays (the repeated array being any generated array: up to 8 elements, compressible runs inside — one to "
+        "four adjacent constant / arithmetic runs —, arrays inside), nested arrays (0.6 %: one value nested 1..16 deep directly in front of a run; arrays of small arrays, of full "
+        "arrays with runs inside, of runs of equal arrays); in 5 % of the cases the list already CONTAINS range cells as the "
+        "scanner or rtosc_convert_to_range make them (at top level and inside arrays of scalars: a run of >= 2 equal values given as "
+        "`n x value`, an arithmetic c/i/h run of >= 3 values as range header + delta + start, under the guards of "
+        "rtosc_convert_to_range), printed with compression on (nxA / a b ... z) and off (expanded); in 14 % of the cases (90 % of them with compression on) 2..4 ADJACENT runs of one type, "
         "each of length 1..9 around the threshold: constant runs and arithmetic runs with steps +-1 and others of c / i "
         "/ h, constant and alternating boolean runs, constant runs of every other type (floats and doubles also as the "
         "neighbouring float, the other zero, and arithmetic-looking sequences that must stay uncompressed), the next run "
@@ -65,7 +82,12 @@ RULE = ("each case: print options (lossless, precision 0..9, line length 10..120
         "compressed run), with 0..2 values behind; 20 % as whole messages with an address of '/' + 0..100 characters out of all printable "
         "non-blank ASCII (33..126); plus a stream for the libc sub-models (printf %a %#.Nf, sscanf %f %lf %d %i %x, "
         "localtime/mktime). Texts the printer does not write are not generated (C11's statement); `T` ops occur only "
-        "as regression witnesses in corpus/C10.ops. Scanned booleans are observed with their payload val.T. "
+        "as regression witnesses in corpus/C10.ops. Scanned booleans are observed with their payload val.T; the cell array "
+        "handed to the scanners is pre-filled with 0xa5 / 0x00 / 0xff bytes (chosen from the op line), so a field the "
+        "scanner leaves unwritten shows. Out of scope (not generated): infinite ranges "
+        "(`[1 2 ...]`, repetition count 0: the round-trip oracle compares finite expansions), float/double ranges with a "
+        "delta (the printer model stops with `unmodelled`), and range cells that rtosc_convert_to_range would not make "
+        "(wider than the type's positive range). "
         "A case is non-trivial when it has at least two argument tokens; distinct = distinct op line")
 ASSUMPTIONS = [
     "the fix patches fixes/C10-01 … C10-17, fixes/C11-01 … C11-06, fixes/C11-08 (and C16-*.patch for rtosc_arg_vals_eq on "
@@ -83,7 +105,9 @@ ASSUMPTIONS = [
     "`RoundTrips` demands that the scanned and the original list BOTH expand to one and the same value list "
     "(expandList … = some vs), not merely that two possibly undefined expansions are equal",
     "domain restrictions of the theorems that the property text does not make: (a) a midnight time tag without fraction "
-    "(printed as a bare date) is proved only as the last value of a text (`MidnightTime`, `ItemNoMidnight`); (b) the "
+    "(printed as a bare date) is proved only as the last value of a text (`MidnightTime`, `ItemNoMidnight`): NOT as an "
+    "element of an array (not even the last one), not as the value of a constant run nxA, not in front of another value — "
+    "all of these are generated and checked by correspondence + oracle; (b) the "
     "element-type tag of an array must be the type of its last element, 32 for an empty array (the tag is not written "
     "in the text; the scanner reconstructs exactly this; rtosc_arg_vals_eq of the implementation compares the tags, so "
     "the generator only makes such arrays); (c) time tags with a fraction are proved in lossless mode only: without "
@@ -128,14 +152,21 @@ ASSUMPTIONS = [
     "value, resp. not its continuation); the body of an array satisfies "
     "`PrinterSegments` on its own (the array loop calls rtosc_convert_to_range with the number of cells left in the "
     "array; convertToRange_append: it does not look behind them), so the value-level run conditions "
-    "PrinterSegments.crun_of_next / irun_of_next apply inside arrays; the values of an array have one type, 'T' and 'F' "
+    "PrinterSegments.crun_of_next / irun_of_next apply inside arrays; there is NO completeness lemma: the theorems "
+    "hold for every list that the model's rtosc_convert_to_range cuts into such pieces, and it is not proved that every "
+    "in-domain list of the covered kinds has such a decomposition (for an uncompressed value the hypothesis is the "
+    "per-position `convertToRange = none`; an array directly followed by another array and runs of arrays have no "
+    "value-level criterion; ItemInDomain.arr bounds arrays to 8 elements); the values of an array have one type, 'T' and 'F' "
     "counting as one (`ArrTypesOK`, the checker's arraytypes_match); the array's tag is the type of its last value, 32 "
     "for an empty array (arrTag_eq; restriction (b) above); overflow / width guards and compression on as before",
-    "nested arrays are outside the proved class, and a statement about them needs a depth hypothesis or a change of the "
-    "MODEL (not of the code): Pretty/Check.lean's ellipsisTail re-skips the left neighbour of a range with the recursion "
-    "bound derived from the length of the range's own text, so the checker model answers Err.fuel on the correctly "
-    "printed text `[[[[[[[[2]]]]]]]] 2 ... 6` (nested_arrays_model_fuel_counterexample; seven levels are fine); the C "
-    "function recurses without a bound, the generator nests at most a few levels",
+    "nested arrays are outside the proved class (the three array loops are proved for bodies of scalars and runs, not "
+    "of arrays). The MODEL no longer has a nesting bound the code lacks: Pretty/Check.lean's countLoop hands "
+    "`checkFuel src recent` (the longer of the current and the previous argument text, + 2) to the skipper, because "
+    "ellipsisTail re-skips the left neighbour of a range; skipNextPrintedArg_fuel_mono proves that a larger bound never "
+    "changes an answer, and the former counterexample `[[[[[[[[2]]]]]]]] 2 ... 6` is now read as the code reads it "
+    "(nested_arrays_deep_reads: 12 cells; nested_arrays_deep_roundtrips: the whole round trip). That the bound is never "
+    "reached on any text is argued in the docstring (every recursive call works on a proper part of the current or the "
+    "previous argument), not proved",
     "runs of n >= 5 equal arrays (printed nx[...], an `ASeg.arun` piece of `PrinterPieces`) are part of "
     "print_scan_roundtrip_arrays_partial / message_roundtrip_arrays_partial as well, the body of the repeated array "
     "again with compressed runs inside, values and runs directly behind nx[...] included; hypothesis: "
@@ -147,7 +178,8 @@ ASSUMPTIONS = [
     "huge_run_needs_hrange, huge_run_needs_hwidth show each hypothesis is needed; range_roundtrip_char: every value of "
     "the run a character of the domain — char_run_signed_counterexample: the run 124..128 prints the byte 0x80, which "
     "the scanner reads as -128); in context (next to other values, inside arrays) such runs are NOT proved",
-    "NOT proved, covered by correspondence + round-trip oracle only: nested arrays, "
+    "NOT proved, covered by correspondence + round-trip oracle only: nested arrays, argument lists that already contain "
+    "range cells, printing with opt == NULL and with cols_used != 0 (MsgRoundTrips fixes printMessage … 0), "
     "arithmetic runs of 'h' / 'c' values in context, runs of 'T' 'F' values, "
     "a midnight time tag anywhere but at the end of "
     "the text, time fractions without lossless mode",
@@ -164,28 +196,39 @@ TRUSTED = [
     "libc modelled, not verified: RtoscModel/Libc/{Ctype,Printf,Float,Scanf,Time}.lean (snprintf %d %x %02x %a %#.Nf, "
     "sscanf subset incl. exact strtof/strtod, localtime/mktime under UTC); validated against glibc by the X-stream",
     "C16's cell type and comparison model RtoscModel/ArgVal/{Val,Cmp}.lean (imported)",
-    "the regular expressions of translate_pretty_tables (a table that cannot be read makes tables_agree fail; it is "
-    "never replaced by a stale file)",
+    "the regular expressions of translate_pretty_tables (a table that cannot be read makes translator_ok / tables_agree "
+    "fail; it is never replaced by a stale file); for a scratch tree (VERIF_REPO != /repo) the shared generated file is "
+    "not rewritten: that tree's tables are compared by the translator (Python) with the committed ones, which the Lean "
+    "theorems of Props/C10Tables.lean tie to the model, and each differing entry is one broken obligation named after it; "
+    "the try-order of scanf_fmtstr is compared as an ordered list up to the one commutation that is proved to change "
+    "no answer (\"%*lfd%n\" / \"%*ff%n\" are neighbours and never both consume the same non-empty numeric word: "
+    "scanfFmtstr_swap_lfd_ff, tryOrder_agrees is a disjunction of the two orders), the reserved words as a set",
 ]
 LEVEL_TEXT = ("Lean theorems: print→check→scan is the identity, with printed length = returned length and the whole text "
               "consumed, for every scalar value (tier 1; floats and doubles bit-exact in lossless mode via exact %a / "
               "strtod models, time tags under the UTC calendar model, fractions in lossless mode), for every list and "
               "whole message of them that the printer does not compress, at any line length (tier 2), with "
               "compression off for lists and messages incl. arrays of scalars (tier 3, partial; a midnight time tag "
-              "only as the last value, array tag = type of the last element), and with compression on for every list "
-              "of scalars in which constant runs of any scalar type (nxA) and int32 arithmetic runs (a ... z / "
+              "only as the last value of the text — not inside arrays or constant runs —, array tag = type of the last "
+              "element), and with compression on for every list "
+              "of scalars that the model's rtosc_convert_to_range cuts into such pieces: constant runs of any scalar type (nxA) and int32 arithmetic runs (a ... z / "
               "a b ... z) stand among uncompressed values in any number and order, under exactly the printer's side "
               "conditions (rtosc_convert_to_range finds these runs; overflow and width guards), the scanned ranges "
               "being compared by their expansion, for lists and whole messages (tier 3, print_scan_roundtrip_runs_partial, "
-              "message_roundtrip_runs_partial), and for every list or message that mixes such values and runs with arrays "
+              "message_roundtrip_runs_partial), and for every list or message that rtosc_convert_to_range cuts into such "
+              "values and runs and arrays "
               "of scalars which may themselves contain compressed runs, values and runs directly behind an array "
               "and runs of equal arrays (nx[...]) included (print_scan_roundtrip_arrays_partial, "
               "message_roundtrip_arrays_partial), and for lists that are exactly one arithmetic run of int64 or "
-              "character values (range_roundtrip_huge, range_roundtrip_char); the rest — nested "
-              "arrays, 'h'/'c' arithmetic runs in context, boolean runs, "
+              "character values (range_roundtrip_huge, range_roundtrip_char); no completeness lemma says which lists "
+              "are cut that way (the side conditions are the printer's own, partly reduced to the values); the "
+              "checker model has no nesting bound the code lacks (skipNextPrintedArg_fuel_mono, "
+              "nested_arrays_deep_roundtrips); the rest — nested "
+              "arrays, argument lists that already contain range cells, opt == NULL, cols_used != 0, 'h'/'c' arithmetic runs in context, boolean runs, "
               "time fractions without lossless mode — is checked by exact model/implementation "
               "correspondence and by the round-trip oracle evaluated on the implementation, not proved")
-LEVEL_NOTE = ("partial: nested arrays, arithmetic runs of 'h'/'c' values next to other values or inside arrays, boolean "
+LEVEL_NOTE = ("partial: the run/array theorems are conditional on the model's rtosc_convert_to_range (no completeness "
+              "lemma); nested arrays, given range cells, opt == NULL and cols_used != 0 (theorems fix cols_used = 0), arithmetic runs of 'h'/'c' values next to other values or inside arrays, boolean "
               "runs, a midnight time tag not at the end, and time fractions without lossless mode, are correspondence + "
               "oracle only")
 
@@ -221,8 +264,8 @@ def _generated_text(ok, note, range_min, defopt, esc, unesc, esc_def, unesc_def,
            "`tables_agree` fails (%s) -/" % note,
            "def translatorOK : Bool := %s" % ("true" if ok else "false"),
            "def rangeMin : Nat := %d" % range_min,
-           "/-- default_print_options: lossless, precision, line length, compress_ranges (separator %r); for information, "
-           "not part of `tables_agree`: the property quantifies over the options -/" % defopt[2],
+           "/-- default_print_options: lossless, precision, line length, compress_ranges (separator %r): what the printers "
+           "use when they are called with opt == NULL; compared with the model's `defaultOpt` by `defaultOpt_agrees` -/" % defopt[2],
            "def defaultOpt : Bool × Nat × Int × Bool := (%s, %d, %d, %s)" % (defopt[0], defopt[1], defopt[3], defopt[4]),
            "/-- as_escaped_char, the `case` labels: (character, letter of its escape sequence), common to chars and strings -/",
            "def escapeTable : List (UInt8 × UInt8) := [%s]" % ", ".join("(%d, %d)" % (_cchar(a), _cchar(b)) for a, b in esc),
@@ -290,18 +333,102 @@ def _extract_pretty_tables():
     return _generated_text(True, "ok", range_min, defopt, esc, unesc, esc_def, unesc_def, names, words)
 
 
+_PSEUDO = []       # obligations that name a differing table entry of a scratch tree (they do not exist in Lean)
+
+
+def _set_pseudo(names):
+    """A run against a scratch tree does not rewrite the shared Generated/PrettyConst.lean (it describes /repo; others
+    build against it).  Each entry in which that tree's tables differ from the committed ones becomes an obligation
+    of its own, named after the entry; it is reported as `theorem ... missing or does not check` (vlib reads THEOREMS
+    after the translators have run) and leaves the other obligations alone."""
+    for t in _PSEUDO:
+        if t in THEOREMS:
+            THEOREMS.remove(t)
+    _PSEUDO[:] = names
+    THEOREMS.extend(names)
+
+
+def _table_defs(text):
+    import re
+    return {m.group(1): m.group(2).strip() for m in re.finditer(r"^def (\w+) : [^\n]*? := (.*)$", text, re.M)}
+
+
+def _entries(val):
+    import re
+    return re.findall(r"\([^()]*\)|\"[^\"]*\"", val)
+
+
+def _san(x):
+    import re
+    return re.sub(r"[^A-Za-z0-9]+", "_", str(x)).strip("_") or "none"
+
+
+def _table_differences(src_text, committed_text):
+    """names of the table entries in which the two generated texts differ (reserved words as a set, everything else
+    entry by entry in order)"""
+    a, b = _table_defs(src_text), _table_defs(committed_text)
+    out = []
+    for name in sorted(set(a) | set(b)):
+        va, vb = a.get(name), b.get(name)
+        if va == vb:
+            continue
+        if va is None or vb is None:
+            out.append("%s.only_in_%s" % (name, "source" if vb is None else "committed_file"))
+        elif name == "reservedWords":
+            sa, sb = set(_entries(va)), set(_entries(vb))
+            out += ["reservedWords.%s_only_in_source" % _san(w) for w in sorted(sa - sb)]
+            out += ["reservedWords.%s_not_in_source" % _san(w) for w in sorted(sb - sa)]
+        elif va.startswith("["):
+            ea, eb = _entries(va), _entries(vb)
+            if name == "tryOrder":
+                # the one commutation proved neutral (scanfFmtstr_swap_lfd_ff): "%*ff%n" tried directly before "%*lfd%n"
+                def canon(es):
+                    es = list(es)
+                    for i in range(len(es) - 1):
+                        if es[i] == '("ff", 102)' and es[i + 1] == '("lfd", 100)':
+                            es[i], es[i + 1] = es[i + 1], es[i]
+                    return es
+                ea, eb = canon(ea), canon(eb)
+            for i in range(max(len(ea), len(eb))):
+                x = ea[i] if i < len(ea) else None
+                y = eb[i] if i < len(eb) else None
+                if x != y:
+                    out.append("%s.entry_%d_in_source_%s_in_model_%s" % (name, i, _san(x), _san(y)))
+        else:
+            out.append("%s.in_source_%s_in_model_%s" % (name, _san(va), _san(vb)))
+    return [_NS + "tables_agree." + n for n in out]
+
+
 def translate_pretty_tables():
-    """Regenerates Generated/PrettyConst.lean.  If the shape of the source has changed so that the tables cannot be
-    read, NO stale file is kept: a file with `translatorOK := false` is written, `tables_agree` no longer checks and
-    the run reports a broken obligation."""
+    """/repo itself: regenerates Generated/PrettyConst.lean.  If the shape of the source has changed so that the tables
+    cannot be read, NO stale file is kept: a file with `translatorOK := false` is written, `translator_ok` /
+    `tables_agree` (Props/C10Tables.lean) no longer check and the run reports that module as broken.
+    A scratch tree (VERIF_REPO != /repo): the shared file is left alone; that tree's tables are compared with the
+    committed ones and every differing entry becomes one broken obligation named after it."""
+    import os
+    import vlib
     try:
-        text = _extract_pretty_tables()
-        return "PrettyConst.lean regenerated (%s)" % _write_generated(text)
+        text, note = _extract_pretty_tables(), None
     except Exception as e:  # noqa: the failure must become a broken obligation, not a silent fallback
         note = ("%s: %s" % (type(e).__name__, e)).replace("-/", "- /").replace("\n", " ")[:200]
         text = _generated_text(False, note, 0, ("true", 0, "?", 0, "true"), [], [], [], [], [], [])
-        _write_generated(text)
-        return "translator translate_pretty_tables FAILED (%s): tables_agree is a broken obligation" % note
+    if vlib._OWN:
+        _set_pseudo([])
+        state = _write_generated(text)
+        if note is None:
+            return "PrettyConst.lean regenerated (%s)" % state
+        return "translator translate_pretty_tables FAILED (%s): translator_ok / tables_agree are broken obligations" % note
+    dst = os.path.join(vlib.LEAN, "RtoscModel", "Generated", "PrettyConst.lean")
+    committed = open(dst).read() if os.path.exists(dst) else ""
+    if note is not None:
+        _set_pseudo([_NS + "tables_agree.translator_cannot_read_the_tables_of_this_tree__" + _san(note)[:80]])
+        return "translator translate_pretty_tables FAILED on this tree (%s): one broken obligation; shared file not written" % note
+    diff = _table_differences(text, committed)
+    _set_pseudo(diff)
+    if diff:
+        return ("tables of this tree differ from the committed PrettyConst.lean (shared file not written for a scratch "
+                "tree): " + "; ".join(d[len(_NS):] for d in diff))
+    return "PrettyConst.lean compared with this tree's tables (identical; shared file not written for a scratch tree)"
 
 
 TRANSLATORS = [translate_pretty_tables]
@@ -398,18 +525,47 @@ def g_bytes(rng, lo, hi):
     return bytes(g_char(rng) for _ in range(n))
 
 
+IDENT_START = b"abcdefghijklmnopqrstuvwxyzABCDEFGHIJKLMNOPQRSTUVWXYZ_"
+IDENT_TAIL = IDENT_START + b"0123456789"          # the whole alphabet [A-Za-z0-9_]
+
+
+def g_kw_case(rng):
+    """a reserved word in another capitalisation (nIL, True, INF, midi ...): these are plain identifiers, the
+    keyword tests of printer, checker and scanner are case sensitive"""
+    w = rng.choice(KEYWORDS)
+    r = rng.random()
+    if r < 0.2:
+        v = w.upper()
+    elif r < 0.4:
+        v = w.lower()
+    elif r < 0.55:
+        v = w[:1].upper() + w[1:].lower()
+    elif r < 0.75:      # exactly one letter in the other case
+        k = rng.randrange(len(w))
+        v = w[:k] + w[k:k + 1].swapcase() + w[k + 1:]
+    else:
+        v = bytes(rng.choice([c, c ^ 32]) for c in w)
+    return v
+
+
 def g_ident(rng):
     r = rng.random()
     if r < 0.08:
         return rng.choice(KEYWORDS)
     if r < 0.16:
         return rng.choice(KEYWORDS) + g_ident_tail(rng, 1, 3)
-    first = rng.choice(b"abcdefghijklmnopqrstuvwxyzABCDEFGHIJKLMNOPQRSTUVWXYZ_")
+    if r < 0.28:
+        return g_kw_case(rng)
+    if r < 0.33:
+        return g_kw_case(rng) + g_ident_tail(rng, 1, 3)
+    if r < 0.38:       # a reserved word (any case) behind a prefix: only a whole word is reserved
+        return g_ident_tail(rng, 1, 2).lstrip(b"0123456789") + g_kw_case(rng) or b"_"
+    first = rng.choice(IDENT_START)
     return bytes([first]) + g_ident_tail(rng, 0, rng.choice([12, 12, 12, 30, 90]))
 
 
 def g_ident_tail(rng, lo, hi):
-    return bytes(rng.choice(b"abcdefghijklmnopqrstuvwxyzABCXYZ_0123456789") for _ in range(rng.randint(lo, hi)))
+    return bytes(rng.choice(IDENT_TAIL) for _ in range(rng.randint(lo, hi)))
 
 
 def g_t(rng, lossless, prec=0):
@@ -541,13 +697,41 @@ def g_run(rng, lossless, maxlen=12, prec=0):
     return [v] * n
 
 
-def g_array_run(rng, lossless):
-    """constant run of one small array (printed `nx[...]` when compressed), now and then one differing"""
-    arr = g_array(rng, lossless, 3)
+def g_runs_array(rng, lossless, prec=0):
+    """an array whose content is 1..4 adjacent runs of one type (the bodies of g_adjacent), e.g. [1 2 3 4 5],
+    [7 7 7 7 7 1 3 5 7 9 11], optionally with a value in front / behind"""
+    r = rng.random()
+    if r < 0.75:
+        ty = rng.choice("iiiich")
+        vals, _, runs = g_adjacent_ints(rng, ty, None)
+        if rng.random() < 0.5:
+            vals = vals[:runs[0][0]]                  # one run only
+        els = ["%s%d" % (ty, v) for v in vals]
+    elif r < 0.85:
+        els = [rng.choice("TF")] * rng.choice(ADJ_LEN) + [rng.choice("TF") for _ in range(rng.randint(0, 2))]
+    else:
+        ty = rng.choice([t for t in "sSbmrtNIfd" if lossless or t not in "fd"])
+        els, _, _ = g_adjacent_consts(rng, ty, lossless, prec, None)
+    if rng.random() < 0.25 and els[0][0] in "ich":
+        els = ["%s%d" % (els[0][0], rng.randint(33, 120))] + els
+    return ["[%d" % ord(els[-1][0])] + els + ["]"]
+
+
+def g_array_run(rng, lossless, prec=0):
+    """constant run of one array (printed `nx[...]` when compressed), now and then one differing; the repeated array
+    is anything g_array makes (0..8 elements, runs inside, arrays inside) or an array full of compressible runs"""
+    def one():
+        r = rng.random()
+        if r < 0.3:
+            return g_array(rng, lossless, 3)
+        if r < 0.65:
+            return g_array(rng, lossless, 8)
+        return g_runs_array(rng, lossless, prec)
+    arr = one()
     n = rng.randint(1, 12)
     out = []
     for k in range(n):
-        out.append(g_array(rng, lossless, 3) if rng.random() < 0.05 else arr)
+        out.append(one() if rng.random() < 0.05 else arr)
     return out
 
 
@@ -566,8 +750,17 @@ def g_array(rng, lossless, maxlen=8):
             els = [rng.choice("TF") for _ in range(n)]
         else:
             els = [g_val(rng, ty, lossless) for _ in range(n)]
-    if rng.random() < 0.04 and maxlen >= 2:   # arrays inside arrays
-        subs = [g_array(rng, lossless, 3) for _ in range(rng.randint(1, 3))]
+    if rng.random() < 0.06 and maxlen >= 2:   # arrays inside arrays: small ones, full ones, runs of equal ones
+        r = rng.random()
+        if r < 0.4:
+            subs = [g_array(rng, lossless, 3) for _ in range(rng.randint(1, 3))]
+        elif r < 0.7:
+            subs = [g_array(rng, lossless, 8) if rng.random() < 0.5 else g_runs_array(rng, lossless)
+                    for _ in range(rng.randint(1, 3))]
+        else:
+            subs = g_array_run(rng, lossless)[:8]
+            if rng.random() < 0.4:
+                subs = subs + [g_array(rng, lossless, 3)]
         return ["[%d" % ord("a")] + [t for sub in subs for t in sub] + ["]"]
     return ["[%d" % ord(els[0][0])] + els + ["]"]
 
@@ -606,7 +799,7 @@ def g_args(rng, lossless, stats, prec=0):
                 stats["runs"] += 1
                 stats["run_len_hist"][str(len(run))] = stats["run_len_hist"].get(str(len(run)), 0) + 1
             elif r < 0.5:
-                for arr in g_array_run(rng, lossless):
+                for arr in g_array_run(rng, lossless, prec):
                     out += arr
                     ntop += 1
                 stats["array_runs"] += 1
@@ -822,6 +1015,71 @@ def g_adjacent(rng, lossless, stats, prec=0):
     return out
 
 
+def _given_ranges_flat(rng, args, stats):
+    """a list of scalar tokens with some of its runs replaced by range cells; returns (tokens, number replaced)"""
+    out, i, done = [], 0, 0
+    while i < len(args):
+        j = i
+        while j + 1 < len(args) and args[j + 1] == args[i]:
+            j += 1
+        n = j - i + 1
+        if n >= 2 and rng.random() < 0.7:
+            out += ["R%d:0" % n, args[i]]
+            stats["given_range_kinds"]["const"] = stats["given_range_kinds"].get("const", 0) + 1
+            i, done = j + 1, done + 1
+            continue
+        ty = args[i][0]
+        if ty in "ich" and i + 1 < len(args) and args[i + 1][0] == ty:
+            lo, hi = (-2 ** 31, 2 ** 31 - 1) if ty in "ic" else (-2 ** 63, 2 ** 63 - 1)
+            a, b = int(args[i][1:]), int(args[i + 1][1:])
+            d = b - a
+            j = i + 1
+            while j + 1 < len(args) and args[j + 1][0] == ty and int(args[j + 1][1:]) - int(args[j][1:]) == d:
+                j += 1
+            n = j - i + 1
+            last = int(args[j][1:])
+            # the guards of rtosc_convert_to_range (fixes C10-11, C10-15): the step behind the last element stays inside
+            # the type and the run is not wider than the type's positive range
+            if (n >= 3 and d != 0 and lo <= d <= hi and lo <= last + d <= hi and abs(last - a) <= hi
+                    and rng.random() < 0.7):
+                out += ["R%d:1" % n, "%s%d" % (ty, d), args[i]]
+                stats["given_range_kinds"]["arith"] = stats["given_range_kinds"].get("arith", 0) + 1
+                i, done = j + 1, done + 1
+                continue
+        out.append(args[i])
+        i += 1
+    return out, done
+
+
+def with_given_ranges(rng, args, stats):
+    """argument list that ALREADY contains range cells, as a caller gets them from the scanner or from
+    rtosc_convert_to_range: a maximal run of >= 2 equal scalars becomes `R<n>:0 v`, an arithmetic c/i/h run of >= 3
+    values `R<n>:1 delta start` (finite ranges only).  Runs at top level and runs inside an array of scalars are
+    rewritten (the array's length then counts cells, as in the C representation); lists with nested arrays are left
+    alone."""
+    depth = 0
+    for t in args:
+        depth += 1 if t[0] == "[" else (-1 if t == "]" else 0)
+        if depth > 1:
+            return args
+    out, seg, done = [], [], 0
+    for t in args + ["]"]:            # the sentinel flushes the last top-level segment
+        if t[0] == "[" or t == "]":
+            new, k = _given_ranges_flat(rng, seg, stats)
+            out += new
+            done += k
+            if k and t == "]" and len(out) > len(new) and out[len(out) - len(new) - 1][0] == "[":
+                stats["given_range_kinds"]["in_array"] = stats["given_range_kinds"].get("in_array", 0) + 1
+            seg = []
+            out.append(t)
+        else:
+            seg.append(t)
+    out.pop()
+    if done:
+        stats["given_ranges"] += 1
+    return out
+
+
 ADDR_PLAIN = b"abcxyz/_09#"
 ADDR_ANY = bytes(range(33, 127))          # every printable character that is not white space
 
@@ -856,6 +1114,7 @@ def generate(rng, tier, stats):
                   "run_len_hist": {}, "array_len_hist": {}, "messages": 0, "lossless": 0, "compress": 0,
                   "type_hist": {}, "linelength_hist": {}, "precision_hist": {}, "blob_len_hist": {}, "string_len_hist": {},
                   "address_len_hist": {}, "address_unusual_chars": 0, "time_fraction_lossy_mode": 0, "list_len_hist": {},
+                  "cols0_nonzero": 0, "opt_null": 0, "deep_nest_then_run": 0, "given_ranges": 0, "given_range_kinds": {},
                   "adjacent": {"cases": 0, "compress_on": 0, "in_array": 0, "first_three_cells_then_range": 0, "run_behind_array": 0,
                                "const_run_in_front": 0,
                                "type_hist": {}, "lead_hist": {}, "runs_hist": {}, "joint_hist": {}, "run_kind_hist": {}}})
@@ -878,8 +1137,29 @@ def generate(rng, tier, stats):
             comp = 1 if rng.random() < 0.9 else 0
             args = g_adjacent(rng, lossless, stats, prec)
             stats["adjacent"]["compress_on"] += comp
+        elif rng.random() < 0.006:   # an array nested 1..16 deep directly in front of a range (the checker re-skips it)
+            depth = rng.randint(1, 16)
+            v = rng.randint(-3, 9)
+            d = rng.choice([1, -1, 1, 2, 0])
+            run = ["i%d" % (v + rng.choice([0, 0, d, 1]) + k * d) for k in range(rng.choice([4, 5, 6, 7]))]
+            args = ["[97"] * (depth - 1) + ["[105", "i%d" % v] + ["]"] * depth + run
+            if rng.random() < 0.3:      # behind other values
+                args = [g_val(rng, rng.choice("isTc"), lossless, prec) for _ in range(rng.randint(1, 2))] + args
+            comp = 1
+            stats["deep_nest_then_run"] += 1
         else:
             args = g_args(rng, lossless, stats, prec)
+        # cols_used: mostly 0; else the caller has already written cols0 columns of the line (around the line length too)
+        cols0 = 0
+        if rng.random() < 0.15:
+            cols0 = rng.choice([1, 2, 3, 4, 5, 8, ll - 2, ll - 1, ll, ll + 1, rng.randint(1, ll + 10), rng.randint(1, 20)])
+            stats["cols0_nonzero"] += 1
+        # opt == NULL: default_print_options (lossless, so any float may be in the list generated above only if lossless)
+        optnull = lossless == 1 and rng.random() < 0.04
+        if optnull:
+            stats["opt_null"] += 1
+        if rng.random() < 0.05:
+            args = with_given_ranges(rng, args, stats)
         stats["lossless"] += lossless
         stats["compress"] += comp
         stats["messages"] += 1 if msg else 0
@@ -900,7 +1180,7 @@ def generate(rng, tier, stats):
             addr = hx(ab)
             bump("address_len_hist", bucket(len(ab)))
             stats["address_unusual_chars"] += 1 if any(c not in ADDR_PLAIN for c in ab) else 0
-        yield " ".join(["M" if msg else "A", str(lossless), str(prec), str(ll), str(comp), "0", addr] + args)
+        yield " ".join(["M" if msg else "A", "N" if optnull else str(lossless), str(prec), str(ll), str(comp), str(cols0), addr] + args)
 
 
 def g_float_text(rng):
@@ -1289,6 +1569,9 @@ def parse_out(out):
         r["ret"] = int(w[1])
         r["text"] = unhx(w[2])
         i = 3
+        if i < len(w) and w[i] == "B":          # mode A with cols0 > 0: the separator in front of the buffer
+            r["before"] = int(w[i + 1])
+            i += 2
     if i < len(w) and w[i] == "C":
         r["count"] = int(w[i + 1])
         i += 2
@@ -1321,6 +1604,8 @@ def oracle(op, out):
         text = r["text"]
         if r["ret"] != len(text):
             return "printer returned %d but wrote %d characters" % (r["ret"], len(text))
+        if r.get("before", 32) not in (32, 10):
+            return "the separator in front of the buffer was overwritten with byte %d" % r["before"]
         if r["count"] < 0:
             return "syntax checker rejects the printed text (count %d)" % r["count"]
         if r.get("rd") is None:
@@ -1330,8 +1615,8 @@ def oracle(op, out):
         for t in r["cells_tok"]:
             # "compared ... bitwise": an original 'T' carries val.T = 1, an 'F' val.T = 0 (rtosc_arg_val_to_int and
             # the range arithmetic read the payload, not the type letter)
-            if t[0] in "TF" and len(t) == 2 and t not in ("T1", "F0"):
-                return "scanned boolean '%s' carries val.T = %s, the original %d" % (t[0], t[1], 1 if t[0] == "T" else 0)
+            if t[0] in "TF" and len(t) >= 2 and t not in ("T1", "F0"):
+                return "scanned boolean '%s' carries val.T = %s, the original %d" % (t[0], t[1:], 1 if t[0] == "T" else 0)
         if r["rd"] != len(text):
             return "scanner consumed %d of %d characters" % (r["rd"], len(text))
         orig = expand(op_cells(w[7:]))
@@ -1355,7 +1640,8 @@ def oracle(op, out):
 
 def _same_but_text(impl_out, model_out):
     """both lines are complete print/count/scan lines and agree in everything but the printed text (and the two
-    numbers that are its length: the printer's return value and the scanner's byte count)"""
+    numbers that are its length: the printer's return value and the scanner's byte count; and, with cols_used != 0 in
+    list mode, whether the separator in front of the buffer has become the line break: layout as well)"""
     try:
         a, b = parse_out(impl_out), parse_out(model_out)
     except (ValueError, IndexError):
